@@ -11,8 +11,10 @@ CONFIGS = {
         {"name": "n3", "n": 3, "names": ["x", "cx", "ccx", "h", "swap", "barrier"], "L": 4},
         {"name": "n2reps", "n": 2, "names": ["x", "cx", "z", "s", "t", "y", "cz", "cp", "h", "swap", "barrier"], "L": 4},
         {"name": "n4mcx", "n": 4, "names": ["x", "mcx", "h", "barrier"], "L": 3},
+        {"name": "n5fan", "n": 5, "names": ["fan"], "L": 4},
     ],
     "thorough": [
+        {"name": "n5fan", "n": 5, "names": ["fan", "h"], "L": 5},
         {"name": "n3", "n": 3, "names": ["x", "cx", "ccx", "h", "swap", "barrier"], "L": 5},
         {"name": "n2", "n": 2, "names": ["x", "cx", "h", "swap", "barrier"], "L": 7},
         {"name": "n2reps", "n": 2, "names": ["x", "cx", "z", "s", "t", "y", "cz", "cp", "h", "swap", "barrier"], "L": 5},
@@ -29,7 +31,8 @@ META = {
             "distinct = distinct gate lists.",
     "bound": {"quick": "n=3 {x,cx,ccx,h,swap,barrier} L<=4 (137k circuits); n=2 with one representative of every non-classical gate kind L<=4; "
                        "n=4 {x,mcx(3 controls),h,barrier} L<=3",
-              "thorough": "n=3 L<=5 (2.6M circuits); n=2 L<=7; representatives L<=5; n=4 with cx L<=4"},
+              "thorough": "n=3 L<=5 (2.6M circuits); n=2 L<=7; representatives L<=5; n=4 with cx L<=4; n=5 register-to-scratch fan-out alphabet "
+                          "(x on 3 register qubits, cx/ccx from the register onto 2 scratch qubits) L<=5 (quick: L<=4)"},
     "assumptions": ["the decompiler distinguishes non-classical gates only by type, so h (1 qubit) and swap (2 qubits) represent them at depth; "
                     "every other gate kind appears at short length to detect a change of that test",
                     "bitsim is the meaning of a classical run"],
